@@ -332,6 +332,14 @@ class Translator:
             if op == '*':
                 p = self.expr(sub, st, fn)
                 if p.t.startswith('sref:'): return st.vars[p.lean]
+                if p.t == 'tableelt':
+                    # `*(T + i)` on a constant table T is, by definition of the subscript operator (C11 6.5.2.1p2: "E1[E2] is
+                    # identical to (*((E1)+(E2)))"), the same expression as `T[i]`: emit exactly what ArraySubscriptExpr emits
+                    # (same element, same in-range obligation).  Purely syntactic; `tableelt` values can only be dereferenced.
+                    tbl, i = p.base, p.off
+                    idx = self.nat_of(i, st)
+                    st.obl.append('decide (%s < %d)' % (idx, tbl.off))
+                    return V('(%s %s)' % (tbl.lean, paren(idx)), tbl.base)
                 return self.read(p, st)
             if op == '&':
                 s = self.strip(sub)
@@ -349,7 +357,13 @@ class Translator:
                     return V('(-%s)' % v.lean, v.t)
                 return V('((0 : %s) - %s)' % (LEAN_T[v.t], v.lean), v.t)
             if op == '!':
-                v = self.conv(self.expr(sub, st, fn), 'bool', st)
+                sv = self.expr(sub, st, fn)
+                if getattr(sv, 'cmp', None) is not None:
+                    # `!(a < b)` ==> `a >= b` etc.: the integers of one C type are totally ordered, so the negation of a
+                    # comparison is the complementary comparison of the same (already evaluated, side-effect-free) operand values
+                    cop, ca, cb = sv.cmp
+                    return self.compare(self.NEGATED[cop], ca, cb)
+                v = self.conv(sv, 'bool', st)
                 if v.lean in ('true', 'false'): return V('false' if v.lean == 'true' else 'true', 'i32b')
                 return V('(!%s)' % v.lean, 'i32b')
             if op == '~':
@@ -435,6 +449,38 @@ class Translator:
         if v.t in ('bool', 'i32b'): return v.lean
         return self.conv(v, 'bool', st).lean
 
+    NEGATED = {'==': '!=', '!=': '==', '<': '>=', '>=': '<', '>': '<=', '<=': '>'}
+
+    def compare(self, op, a, b):
+        """comparison of two integer values of the same C type, in canonical spelling.  The result remembers (op, a, b) so that
+        a logical negation applied to it can be pushed inside (see unary `!`)."""
+        if a.t != b.t: raise Unsupported('comparison of %s with %s' % (a.t, b.t))
+        r = self.compare0(op, a, b)
+        r.cmp = (op, a, b)
+        return r
+
+    def compare0(self, op, a, b):
+        if op in ('==', '!=') and getattr(a, 'boolsrc', None) is not None and lit_val(b) == 0:
+            return V(a.boolsrc if op == '!=' else '(!%s)' % a.boolsrc, 'i32b')
+        if op in ('==', '!='): return V('(%s %s %s)' % (a.lean, op, b.lean), 'i32b')
+        # canonical spelling of comparisons against a literal, so that equivalent rewrites of the source (`x < 24` for
+        # `x <= 23`, `n > 0` / `n >= 1` for `n != 0` on unsigned operands, `x > 8` for `x >= 9`) regenerate the identical model.
+        # Each rule is an equivalence of integer comparisons that holds for every value of the operand type:
+        #   x <  k  <=>  x <= k-1   (k-1 representable: k >= 1 for unsigned, k-1 >= INT_MIN for signed)
+        #   x >  k  <=>  x >= k+1   (k+1 representable)
+        #   unsigned only:  x > 0 <=> x >= 1 <=> x != 0 ;   x < 1 <=> x <= 0 <=> x == 0
+        lb = lit_val(b)
+        if lb is not None and is_unsigned(a.t) and lit_val(a) is None:
+            if op == '<' and lb >= 1: op, b = '<=', lit(lb - 1, a.t)
+            elif op == '>' and lb + 1 < 2 ** BITS[a.t]: op, b = '>=', lit(lb + 1, a.t)
+            lb = lit_val(b)
+            if op == '>=' and lb == 1: return V('(%s != %s)' % (a.lean, lit(0, a.t).lean), 'i32b')
+            if op == '<=' and lb == 0: return V('(%s == %s)' % (a.lean, b.lean), 'i32b')
+        elif lb is not None and is_signed(a.t) and lit_val(a) is None:
+            if op == '<' and lb - 1 >= -(2 ** (BITS[a.t] - 1)): op, b = '<=', lit(lb - 1, a.t)
+            elif op == '>' and lb + 1 < 2 ** (BITS[a.t] - 1): op, b = '>=', lit(lb + 1, a.t)
+        return V('(decide (%s %s %s))' % (a.lean, op, b.lean), 'i32b')
+
     def binop(self, e, st, fn):
         op = e['opcode']
         if op == ',': raise Unsupported('comma operator')
@@ -455,22 +501,10 @@ class Translator:
         if a.t == 'bool': a = self.conv(a, 'i32', st)
         if b.t == 'bool': b = self.conv(b, 'i32', st)
         if a.t == 'ptr' and op == '+': return self.padd(a, b, st)
+        if a.t == 'table' and op == '+' and (is_unsigned(b.t) or is_signed(b.t)):
+            return V(a.lean, 'tableelt', base=a, off=b)      # address of element b of a constant table; see unary `*`
         if op in ('==', '!=', '<', '>', '<=', '>='):
-            if a.t != b.t: raise Unsupported('comparison of %s with %s' % (a.t, b.t))
-            if op in ('==', '!=') and getattr(a, 'boolsrc', None) is not None and lit_val(b) == 0:
-                return V(a.boolsrc if op == '!=' else '(!%s)' % a.boolsrc, 'i32b')
-            if op in ('==', '!='): return V('(%s %s %s)' % (a.lean, op, b.lean), 'i32b')
-            # canonical spelling of comparisons against a literal, so that equivalent rewrites of the source (`x < 24` for
-            # `x <= 23`, `n > 0` for `n != 0` on unsigned operands, `x > 8` for `x >= 9`) regenerate the identical model
-            lb = lit_val(b)
-            if lb is not None and is_unsigned(a.t) and lit_val(a) is None:
-                if op == '>' and lb == 0: return V('(%s != %s)' % (a.lean, b.lean), 'i32b')
-                if op == '<' and lb >= 1: op, b = '<=', lit(lb - 1, a.t)
-                elif op == '>' and lb + 1 < 2 ** BITS[a.t]: op, b = '>=', lit(lb + 1, a.t)
-            elif lb is not None and is_signed(a.t) and lit_val(a) is None:
-                if op == '<' and lb - 1 >= -(2 ** (BITS[a.t] - 1)): op, b = '<=', lit(lb - 1, a.t)
-                elif op == '>' and lb + 1 < 2 ** (BITS[a.t] - 1): op, b = '>=', lit(lb + 1, a.t)
-            return V('(decide (%s %s %s))' % (a.lean, op, b.lean), 'i32b')
+            return self.compare(op, a, b)
         t = ctype(e['type'])
         if op in ('<<', '>>'):
             amt_lit = lit_val(b)
@@ -478,6 +512,10 @@ class Translator:
                 w = BITS[a.t]
                 if amt_lit is not None:
                     if not (0 <= amt_lit < w): raise Unsupported('constant shift amount out of range')
+                    if lit_val(a) is not None:
+                        # both operands literal: evaluate, as for `+ - * & | ^` on literals below (unsigned `<<` is modulo 2^w,
+                        # `lit` reduces; the amount was just checked to be < w), so `sizeof(size_t) << 3` and `sizeof(size_t) * 8` agree
+                        return lit((lit_val(a) << amt_lit) if op == '<<' else (lit_val(a) >> amt_lit), a.t)
                     amt = '(%d : %s)' % (amt_lit, LEAN_T[a.t])
                 else:
                     n = self.nat_of(b, st)
